@@ -535,6 +535,8 @@ impl ActionProvider for ReferenceInlineSection {
         let tree = context.collect(&key);
         Some(target_id)
             .filter(|target_id| tree.get(*target_id).is_reference())
+            // the content goes into the section that holds the reference: without one there is nothing to offer
+            .filter(|target_id| tree.get_surrounding_section_id(*target_id).is_some())
             .map(|_| Action {
                 title: "Inline section".to_string(),
                 identifier: self.identifier(),
